@@ -2,8 +2,9 @@
    models (nothing regenerated from /repo): used to search for a failing input
    when the translation or a proof about the generated code is broken. *)
 From Coq Require Import Extraction ExtrOcamlBasic.
-From LE Require Import Base Config ConfigSpec.
+From LE Require Import Base Strs Config Err ConfigSpec ErrSpec.
 
 Extraction Language OCaml.
 Extraction "extracted.ml"
-  valid_specb mkCfg.
+  valid_specb mkCfg
+  msg class_ok required_class nats_situation_permanent.
